@@ -222,6 +222,8 @@ def chains(run):
     # compositions
     C.append(('numpy -> crop', [numpy((12, 13, 300), 16, (4, 4, -1), il=(10, 1), xl=(20, 2), z0=0, dz=4.0, extra=1), crop(((4, 8), (1, 9), (128, 256)))]))
     C.append(('numpy -> crop(clipped, unaligned)', [numpy((10, 9, 70), 32, (4, 4, -1), il=(1, 1), xl=(1, 1)), crop(((3, 10), (2, 9), None))]))
+    C.append(('numpy -> crop(upper bounds inside the last, partial block)', [numpy((10, 9, 70), 32, (4, 4, -1), il=(1, 1), xl=(1, 1), extra=2), crop(((4, 9), (2, 9), None))]))
+    C.append(('numpy (8,8,16) -> crop(upper bound inside the last, partial block)', [numpy((13, 11, 20), 32, (8, 8, 16), il=(5, 2), xl=(1, 3), extra=1), crop(((0, 10), (8, 10), None))]))
     C.append(('numpy(negative origin) -> crop', [numpy((8, 8, 64), 32, (4, 4, -1), il=(-20, 2), xl=(-9, 1)), crop(((0, 4), (4, 8), None))]))
     C.append(('segy thorough -> crop -> crop', [segy((12, 9, 140), 32, None, 'thorough'), crop(((0, 8), None, None)), crop((None, (4, 9), (64, 128)))]))
     C.append(('numpy 2bit -> reblock', [numpy((5, 70, 9), 2, (4, 4, -1), il=(1, 1), xl=(1, 1), extra=2), reblock()]))
